@@ -65,6 +65,12 @@ def sliceCmd (s : SliceState) (args : List String) : SliceState × String :=
       let (h, _) := copy s.heap dv sv
       ({ s with heap := h }, "ok")
     | _, _ => (s, "err")
+  | ["copyn", d, u] =>      -- copy used as a value: the count
+    match s.vars.lookup d, s.vars.lookup u with
+    | some dv, some sv =>
+      let (h, n) := copy s.heap dv sv
+      ({ s with heap := h }, s!"ok n={n}")
+    | _, _ => (s, "err")
   | ["show"] => (s, showAll s)
   | _ => (s, "bad-op")
 
